@@ -183,7 +183,7 @@ var c01Calls = []call{
 	{Kind: "delete"},
 }
 
-var c01Targets = []string{"a", "ab", "zz", "_internal/x", " a"}
+var c01Targets = []string{"a", "ab", "zz", "_internal/x", "_internal/a", " a"}
 
 func checkC01(t *testing.T, env *report.Env, rep *report.Report) {
 	depth := 2
@@ -194,7 +194,7 @@ func checkC01(t *testing.T, env *report.Env, rep *report.Report) {
 	fs := &failSet{}
 	sets := ruleUniverse(env.Thorough())
 	sec := rep.Add(&report.Section{Name: fmt.Sprintf("acl-all-rule-sets-depth%d", depth), Engine: "seqx", Exhaustive: true, Extra: map[string]int64{},
-		Rule:  "every database state of the BFS (names a, ab) × every rule set of the universe × 17 operation instances × targets {a, ab, zz, _internal/x}, at the db.DB API and through the HTTP handlers; reference decision = independent glob/ACL evaluator; non-trivial = evaluations that the reference allows (the call must then behave exactly like the superuser's)",
+		Rule:  "every database state of the BFS (names a, ab) × every rule set of the universe × 17 operation instances × targets {a, ab, zz, _internal/x, _internal/a, space-a}, at the db.DB API and through the HTTP handlers; reference decision = independent glob/ACL evaluator; non-trivial = evaluations that the reference allows (the call must then behave exactly like the superuser's)",
 		Bound: fmt.Sprintf("depth %d; %d rule sets", depth, len(sets))})
 	states, trans := BFS(alpha, depth, 16, nil, fs.add)
 	sec.States, sec.Transitions = int64(len(states)), trans
